@@ -113,6 +113,12 @@ def run(ctx, rep):
         t.get('fn') in POLL_NAMES and any(fu.kind == 'trait_fn' and fu.path == 'ops::Qcow2IoOps::fallocate'
                                           for fu in P.futs(t['a'][0], ())) for _bi, t in b.calls())
         and 'Qcow2Dev' in b.path]
+    rep.rule('C12.7', 'the child slices of a top-table block are located with the geometry fields of the top-table index (new refblocks reach the disk before the reftable block that points at them)')
+    from .c15 import key_rule
+    from ..interp import Program as _P2
+    key_rule(f, _P2(f), rep, 'C12.7')
+    rep.rule('C12.8', 'the in-RAM count of L1 entries the header covers is raised only after the header update succeeded')
+    header_mirror_rule(f, rep)
     rep.rule('C12.6', 'the fresh refblock of the growth path accounts for the refblock and every cluster of the relocated table')
     growth_refcount_rule(f, rep)
     rep.floor('zero/punch wrappers', len(wrappers), 1)
@@ -178,3 +184,36 @@ def growth_refcount_rule(f, rep):
                       'grow_reftable increments the refcounts of indexes that are all provably below the cluster count of the '
                       'relocated table: its last cluster (index N, after the refblock at index 0) is written with refcount 0, so '
                       'the image is invalid as soon as the header is switched')
+
+
+def header_mirror_rule(f, rep):
+    """update_header_entries (what the L1 table believes the on-disk header covers) must come after the
+    successful header commit: if it is raised first and the commit fails, the rollback restores the header
+    but the table keeps the larger count, and the retry skips the header extension"""
+    n = 0
+    for b in f.body_list:
+        if '::tests::' in b.path or not b.is_coroutine:
+            continue
+        ups = [(bi, t) for bi, t in b.calls() if (t.get('fn') or '').endswith('L1Table::update_header_entries')]
+        if not ups:
+            continue
+        commits = [bi for bi, t in b.calls() if (t.get('fn') or '').endswith('::flush_header_for_l1_table') or (t.get('fn') or '').endswith('::commit_header')]
+        for bi, t in ups:
+            n += 1
+            # the commit's future is created at a call block; its success continuation dominates what follows the `?`
+            ok = any(b.dominates(c, bi) and polled_between(b, c, bi) for c in commits)
+            rep.ob('C12.8', 'update_header_entries in %s at %s' % (short(b.path), b.where(bi)), ok,
+                   'after the awaited header update' if ok else 'not dominated by a completed header update')
+            if not ok:
+                rep.violation('C12.8', 'C12.8:%s' % short(b.path), b.where(bi),
+                              '%s raises the number of L1 entries the header is believed to cover before the header update has '
+                              'succeeded: after a failed header write the rollback restores the header only, and the retried write '
+                              'installs an L1 entry beyond the on-disk l1_size' % short(b.path))
+    rep.floor('update_header_entries call sites', n, 1)
+
+
+def polled_between(b, create_bi, use_bi):
+    """a poll of some future lies on every path from the creation to the use (the await completed)"""
+    from ..interp import POLL_NAMES
+    polls = {bi for bi, t in b.calls() if t.get('fn') in POLL_NAMES and b.dominates(create_bi, bi)}
+    return any(b.dominates(p, use_bi) for p in polls)
